@@ -117,7 +117,7 @@ Proof. intros s c t. unfold edges_of. destruct (nget s (n_states n2)) as [st|] e
 
 Lemma tf_child_node : forall s c t, node V n2 s -> tchild V n2 s c = Some t -> node V n2 t /\ t <> ROOT /\ t <> DEAD /\ t < n_nstates n2.
 Proof.
-  intros s c t Ns Hc. apply node2_iff in Ns as [w Hw]. rewrite Htc in Hc.
+  clear Hlab. intros s c t Ns Hc. apply node2_iff in Ns as [w Hw]. rewrite Htc in Hc.
   assert (Ht : N0 V n0 (w ++ [c]) t) by (apply (N0_snoc V n0); eauto).
   split; [apply node2_iff; eauto|]. destruct (ti_bwd _ _ _ _ _ _ T0 _ _ Ht) as [[E _]|[H2 _]].
   - apply app_eq_nil in E as [_ E]. discriminate.
@@ -153,7 +153,7 @@ Qed.
 
 Lemma tf_nstates_nodes : forall s, s < n_nstates n2 -> s <> DEAD -> node V n2 s.
 Proof.
-  intros s Hs Hd. apply node2_iff. rewrite Hns in Hs. destruct (N.eq_dec s ROOT) as [->|Hr]; [exists []; reflexivity|].
+  clear Hlab. intros s Hs Hd. apply node2_iff. rewrite Hns in Hs. destruct (N.eq_dec s ROOT) as [->|Hr]; [exists []; reflexivity|].
   pose proof (ti_cnt _ _ _ _ _ _ T0) as Hc. unfold ROOT, DEAD in *.
   destruct (nth_error paths (N.to_nat (s - 2))) as [p|] eqn:E; [|apply nth_error_None in E; lia].
   exists p. pose proof (ti_fwd _ _ _ _ _ _ T0 _ _ E) as Hf. unfold N0. rewrite Hf. f_equal. lia.
